@@ -1,4 +1,4 @@
-From V Require Import Common.Base C13.KwSpec C13.Token C13.LexSpec C13.LexProofs C13.Toks C13.TokenProofs C13.RenderLex C13.ParseSpec C13.PrintParse C13.PrintParse2 C13.PrintNorm C13.Harness gen.KeywordsGen.
+From V Require Import Common.Base C13.KwSpec C13.Token C13.LexSpec C13.LexProofs C13.Toks C13.TokenProofs C13.RenderLex C13.ParseSpec C13.PrintParse C13.PrintParse2 C13.PrintNorm C13.PrintChain C13.ParseFuel C13.RoundTrip C13.Harness gen.KeywordsGen.
 From Coq Require Import String.
 (* non-vacuity / sanity: concrete values *)
 Example kw_count : (List.length gen_keywords = 36)%nat /\ (List.length gen_strict_reserved = 9)%nat /\ (List.length ecma_reserved_words = 38)%nat.
@@ -66,3 +66,9 @@ Example ex_tree_print : print_expr true ex_tree = zs "a.b=(-c)**2,(d||e)??f++,ty
 Proof. vm_compute. reflexivity. Qed.
 Example ex_tree_parse : parse_text (print_expr true ex_tree) = Some (norm ex_tree) /\ norm ex_tree <> ex_tree.
 Proof. split; [vm_compute; reflexivity | vm_compute; discriminate]. Qed.
+Example ex_tree_lexok : lexok ex_tree /\ lexok (EUn UPreInc (EDot (EBin BAdd (ENum (zs "1")) (EId (zs "a"))) (zs "b"))).
+Proof. simpl. repeat split; try (intro; reflexivity); try (intro; discriminate). Qed.
+Example ex_tree_roundtrip : parse_text (print_expr false ex_tree) = Some (norm ex_tree).
+Proof. apply print_parse_roundtrip_concrete; [apply ex_tree_wf | apply ex_tree_lexok]. Qed.
+Example ex_tree_fixed : print_expr true (norm ex_tree) = print_expr true ex_tree.
+Proof. apply (print_fixed_point_concrete false ex_tree); [apply ex_tree_wf | apply ex_tree_lexok | apply ex_tree_roundtrip]. Qed.
